@@ -6,6 +6,8 @@
 import PM.Step
 import Proofs.StepToks
 import Proofs.Merge
+import Proofs.MarkMerge
+import Proofs.FlatReplace
 namespace PM.C16
 open PM
 
@@ -139,5 +141,158 @@ theorem merge_shape (s1 s2 m : Step) (hm : s1.merge s2 = some m) :
       simp only [Option.some.injEq] at hm
       exact ⟨f, t, f', t', mk', rfl, rfl, hm.symm, hc2, hc3⟩
     · simp at hm
+
+/-! ## The merged step applies — mark steps (helper lemmas: Proofs/MarkSuccess.lean, Proofs/MarkMerge.lean)
+
+`merge_equiv` assumes that the merged step applies.  For add-mark / remove-mark pairs this follows from
+the pair applying: on a valid, normal-form document a range mark step applies whenever its ends are in
+range and pair-aligned (`addMark_applies`, under `TextLoop`), and the ends of the merged range are ends
+of the two given steps, aligned in the original document (`merged_ends`). -/
+
+/-- **a merged mark step applies whenever the two steps it replaces apply in sequence** to a valid,
+    normal-form document (schemas in which text children may repeat) -/
+theorem merge_succeeds_marks (S : Schema) (hts : TextLoop S) (s1 s2 m : Step) (d d1 d2 : Node)
+    (hmark : (∃ f t mk, s1 = .addMark f t mk) ∨ (∃ f t mk, s1 = .removeMark f t mk))
+    (hv : S.checkNode d = true) (hn : fnorm d.kids = true)
+    (h1 : S.apply s1 d = .ok d1) (h2 : S.apply s2 d1 = .ok d2)
+    (hm : s1.merge s2 = some m) : ∃ d', S.apply m d = .ok d' := by
+  rcases merge_shape s1 s2 m hm with ⟨f, t, sl, f', t', sl', sl'', rfl, _, _⟩ |
+      ⟨f, t, f', t', mk, rfl, rfl, rfl, hc2, hc3⟩ | ⟨f, t, f', t', mk, rfl, rfl, rfl, hc2, hc3⟩
+  · rcases hmark with ⟨_, _, _, h⟩ | ⟨_, _, _, h⟩ <;> cases h
+  · exact merge_succeeds_addMark S hts d d1 d2 f t f' t' mk hv hn h1 h2 hc2 hc3
+  · exact merge_succeeds_removeMark S hts d d1 d2 f t f' t' mk hv hn h1 h2 hc2 hc3
+
+/-- **unconditional equivalence for mark steps**: the merged step applies to the original document and
+    yields exactly the document the two steps yield -/
+theorem merge_equiv_marks (S : Schema) (hts : TextLoop S) (s1 s2 m : Step) (d d1 d2 : Node)
+    (hmark : (∃ f t mk, s1 = .addMark f t mk) ∨ (∃ f t mk, s1 = .removeMark f t mk))
+    (hv : S.checkNode d = true) (hn : fnorm d.kids = true)
+    (h1 : S.apply s1 d = .ok d1) (h2 : S.apply s2 d1 = .ok d2)
+    (hm : s1.merge s2 = some m) : S.apply m d = .ok d2 := by
+  obtain ⟨d', h'⟩ := merge_succeeds_marks S hts s1 s2 m d d1 d2 hmark hv hn h1 h2 hm
+  have norms : fnorm d'.kids = true ∧ fnorm d2.kids = true := by
+    rcases merge_shape s1 s2 m hm with ⟨f, t, sl, f', t', sl', sl'', rfl, _, _⟩ |
+        ⟨f, t, f', t', mk, rfl, rfl, rfl, _, _⟩ | ⟨f, t, f', t', mk, rfl, rfl, rfl, _, _⟩
+    · rcases hmark with ⟨_, _, _, h⟩ | ⟨_, _, _, h⟩ <;> cases h
+    · exact ⟨(addMark_facts S d d' _ _ mk h').norm hn,
+        (addMark_facts S d1 d2 _ _ mk h2).norm ((addMark_facts S d d1 _ _ mk h1).norm hn)⟩
+    · exact ⟨(removeMark_facts S d d' _ _ mk h').norm hn,
+        (removeMark_facts S d1 d2 _ _ mk h2).norm ((removeMark_facts S d d1 _ _ mk h1).norm hn)⟩
+  rw [h', merge_equiv S s1 s2 m d d1 d2 d' h1 h2 hm h' norms.1 norms.2]
+
+/-! ## The merged step applies — replace steps, flat case (helper lemmas: Proofs/FlatReplace.lean)
+
+General statement (not proved):
+
+    merge_succeeds_replace : s1 = .replace f t sl false → s2 = .replace f' t' sl' false →
+        S.apply s1 d = .ok d1 → S.apply s2 d1 = .ok d2 → s1.merge s2 = some m → ∃ d', S.apply m d = .ok d'
+
+for a valid, normal-form `d` and normal-form slices.  Proved below for the *flat* case of both
+`merge` branches (the second step starts where the first one's content ends — typing, forward deleting,
+pasting in sequence — or ends where the first one starts — deleting backwards): both slices closed,
+both replaced ranges flat (`FlatRange`: the range ends at the
+depth it starts at and never rises above it — every range whose `Node.slice` is closed,
+`flatRange_of_closed`; every empty range, `flatRange_refl`).  There the merged step rebuilds one child
+list only, and it is token for token the list the second step built and validated; no validity
+hypothesis on `d` is needed.  Missing for the general case: the same comparison along the two spines of
+open slices (the merged step's `close` arguments are contents of nodes the two steps re-closed, but
+joined in a different order). -/
+
+/-- **merged flat replace steps: the merged step applies and yields the pair's result** — both `merge`
+    branches (the second step starts where the first one's content ends / ends where the first one starts) -/
+theorem merge_succeeds_replace_flat (S : Schema) (d d1 d2 : Node) (f t f' t' : Nat) (c c' : List Node)
+    (m : Step) (hn : fnorm d.kids = true) (hcn : fnorm c = true) (hcn' : fnorm c' = true)
+    (h1 : S.apply (.replace f t ⟨c, 0, 0⟩ false) d = .ok d1)
+    (h2 : S.apply (.replace f' t' ⟨c', 0, 0⟩ false) d1 = .ok d2)
+    (hfl1 : FlatRange d.kids f t) (hfl2 : FlatRange d1.kids f' t')
+    (hm : (Step.replace f t ⟨c, 0, 0⟩ false).merge (.replace f' t' ⟨c', 0, 0⟩ false) = some m) :
+    S.apply m d = .ok d2 := by
+  obtain ⟨ty, a, mk, K, K1, rfl, rfl, hr1⟩ := fromReplace_parts S d d1 f t _ (apply_replace_from _ _ _ _ _ _ _ h1)
+  obtain ⟨ty', a', mk', K1', K2, he, rfl, hr2⟩ :=
+    fromReplace_parts S _ d2 f' t' _ (apply_replace_from _ _ _ _ _ _ _ h2)
+  cases he
+  simp only [Node.kids] at hn hfl1 hfl2
+  -- an empty merged slice is the concatenation as well
+  have hz : (Slice.mk c 0 0).size + (Slice.mk c' 0 0).size = 0 → c = [] ∧ c' = [] := by
+    intro hz
+    simp only [Slice.size] at hz
+    exact ⟨fsize_zero_of_fnormKids c (fnormKids_of_fnorm hcn) (by omega),
+      fsize_zero_of_fnormKids c' (fnormKids_of_fnorm hcn') (by omega)⟩
+  have hsl1 : (if (Slice.mk c 0 0).size + (Slice.mk c' 0 0).size = 0 then Slice.empty
+      else ⟨fappend c c', 0, 0⟩) = ⟨fappend c c', 0, 0⟩ := by
+    split
+    · rename_i h; obtain ⟨rfl, rfl⟩ := hz h; rfl
+    · rfl
+  have hsl2 : (if (Slice.mk c 0 0).size + (Slice.mk c' 0 0).size = 0 then Slice.empty
+      else ⟨fappend c' c, 0, 0⟩) = ⟨fappend c' c, 0, 0⟩ := by
+    split
+    · rename_i h; obtain ⟨rfl, rfl⟩ := hz h; rfl
+    · rfl
+  simp only [Step.merge, Bool.or_self, Bool.false_eq_true, if_false] at hm
+  split at hm
+  · -- the second step starts where the first one's content ends
+    rename_i hc
+    simp only [Bool.and_eq_true, decide_eq_true_eq] at hc
+    have hf' : f' = f + fsize c := by
+      have := hc.1.1
+      simp only [Slice.size] at this
+      omega
+    simp only [Option.some.injEq] at hm
+    subst hm
+    have key := replaceKids_merge_flat S ty K K1 K2 f t f' t' c c' hn hcn hcn' hr1 hr2 hf' hfl1 hfl2
+    simp only [hsl1, Schema.apply, Bool.false_eq_true, if_false, Schema.fromReplace, Schema.replace, key,
+      Except.map]
+  · split at hm
+    · -- the second step ends where the first one starts
+      rename_i hc
+      simp only [Bool.and_eq_true, decide_eq_true_eq] at hc
+      have ht' : t' = f := hc.1.1
+      subst ht'
+      simp only [Option.some.injEq] at hm
+      subst hm
+      have key := replaceKids_merge_flat_left S ty K K1 K2 t' t f' c c' hn hcn hcn' hr1 hr2 hfl1 hfl2
+      simp only [hsl2, Schema.apply, Bool.false_eq_true, if_false, Schema.fromReplace, Schema.replace, key,
+        Except.map]
+    · simp at hm
+
+/-! Non-vacuity of `merge_succeeds_replace_flat` (typing): in `doc(p("ab"))` insert `x` at 2, then `y` at 3;
+    the merged step "insert `xy` at 2" applies and gives `doc(p("axyb"))`. -/
+section Example
+private def tinyS : Schema :=
+  { nodes := #[
+      { name := "doc", isText := false, isInline := false, isLeaf := false, isAtom := false,
+        inlineContent := false, isolating := false, defining := false, code := false,
+        dfa := #[⟨true, [(1, 0)]⟩], markSet := some [], attrs := [] },
+      { name := "para", isText := false, isInline := false, isLeaf := false, isAtom := false,
+        inlineContent := true, isolating := false, defining := false, code := false,
+        dfa := #[⟨true, [(2, 0)]⟩], markSet := none, attrs := [] },
+      { name := "text", isText := true, isInline := true, isLeaf := true, isAtom := true,
+        inlineContent := false, isolating := false, defining := false, code := false,
+        dfa := #[⟨true, []⟩], markSet := some [], attrs := [] }],
+    marks := #[], top := 0, textTy := 2 }
+
+private def e0 : Node := .elem 0 [] [] [.elem 1 [] [] [.text [97, 98] []]]
+private def e1 : Node := .elem 0 [] [] [.elem 1 [] [] [.text [97, 120, 98] []]]
+private def e2 : Node := .elem 0 [] [] [.elem 1 [] [] [.text [97, 120, 121, 98] []]]
+
+private theorem fwd1 : tinyS.apply (.replace 2 2 ⟨[.text [120] []], 0, 0⟩ false) e0 = .ok e1 := by
+  have hv : tinyS.validContent 1 [Node.text [97, 120, 98] []] = true := by decide
+  simp [Schema.apply, Schema.fromReplace, Schema.replace, e0, replaceKids, inRange,
+    depthAt, Slice.wf, spineL, spineR, outer, atLevel, fcut, fcutLoop, cutText, splitOk, isHigh, isLow,
+    fappend, addNode, Except.map, e1, hv]
+
+private theorem fwd2 : tinyS.apply (.replace 3 3 ⟨[.text [121] []], 0, 0⟩ false) e1 = .ok e2 := by
+  have hv : tinyS.validContent 1 [Node.text [97, 120, 121, 98] []] = true := by decide
+  simp [Schema.apply, Schema.fromReplace, Schema.replace, e1, replaceKids, inRange,
+    depthAt, Slice.wf, spineL, spineR, outer, atLevel, fcut, fcutLoop, cutText, splitOk, isHigh, isLow,
+    fappend, addNode, Except.map, e2, hv]
+
+example : tinyS.apply (.replace 2 2 ⟨[.text [120, 121] []], 0, 0⟩ false) e0 = .ok e2 := by
+  have := merge_succeeds_replace_flat tinyS e0 e1 e2 2 2 3 3 [.text [120] []] [.text [121] []] _
+    (by simp [e0, Node.kids, fnorm, fnormKids, Node.norm, chainOk])
+    (by simp [fnorm, fnormKids, Node.norm, chainOk]) (by simp [fnorm, fnormKids, Node.norm, chainOk])
+    fwd1 fwd2 (flatRange_refl _ _) (flatRange_refl _ _) rfl
+  simpa [Slice.size, fappend, addNode] using this
+end Example
 
 end PM.C16
